@@ -24,3 +24,5 @@ package parser
 //@   at call Parse$6#* modifies pt.ExpectParam, pt.Parameters, pt.pop
 //@   at call Parse$7#* modifies pt.Escaped, pt.FuncName, pt.Parameters, elems(pt.Parameters), syntaxHighlighted, reset
 //@   loop 1 step imp(old(pt.Unsafe), pt.Unsafe)
+// a `$` (variable or sub-shell) outside comments, escapes, single quotes and variable names marks the line unsafe
+//@   loop 1 step imp(!old(pt.Comment) && old(pt.VarSigil) == "" && !old(pt.Escaped) && !old(pt.QuoteSingle) && block[old(i)] == '$', pt.Unsafe)
